@@ -560,12 +560,22 @@ def _inside_section(txt, lineno):
 
 # --------------------------------------------------------------------------- known findings
 def load_findings(prop: str):
-    path = os.path.join(VERIF, 'known_findings.json')
-    if not os.path.exists(path):
-        return []
-    with open(path) as f:
-        data = json.load(f)
-    return [e for e in data.get('findings', []) if e.get('property') == prop]
+    """known_findings.json plus per-property fragments findings/Cxx.json"""
+    import glob
+    out = []
+    paths = [os.path.join(VERIF, 'known_findings.json')] + sorted(glob.glob(os.path.join(VERIF, 'findings', '*.json')))
+    seen = set()
+    for path in paths:
+        if not os.path.exists(path):
+            continue
+        with open(path) as f:
+            data = json.load(f)
+        for e in data.get('findings', []):
+            key = (e.get('property'), e.get('id'))
+            if e.get('property') == prop and key not in seen:
+                seen.add(key)
+                out.append(e)
+    return out
 
 
 # --------------------------------------------------------------------------- decision + evidence
